@@ -336,6 +336,30 @@ pub(crate) mod verif_pc {
 
     /// (not on any error path; cut out because its send loop alone exceeds the time cap)
     fn stub_noop_send_ready<T: Config>(_this: &mut P2PSession<T>) {}
+    /// (not on the error path of set_input_delay; its fill loop is decided by the q_delay_* harnesses)
+    fn stub_set_frame_delay<T: Config>(_this: &mut crate::sync_layer::SyncLayer<T>, _h: PlayerHandle, _d: usize) -> Vec<PlayerInput<T::Input>> {
+        Vec::new()
+    }
+
+    /// set_input_delay for a remote, spectator-range or unknown handle: InvalidRequest, nothing changes.
+    #[kani::proof]
+    #[kani::unwind(8)]
+    #[kani::stub(crate::network::protocol::millis_since_epoch, stub_millis)]
+    #[kani::stub(alloc::fmt::format, stub_format)]
+    #[kani::stub(crate::sessions::p2p_session::P2PSession::send_ready_outgoing_inputs_to_remotes, stub_noop_send_ready)]
+    #[kani::stub(crate::sync_layer::SyncLayer::set_frame_delay, stub_set_frame_delay)]
+    fn pc_set_delay_wrong_handle() {
+        let mut s = mk_session_ep(2, DesyncDetection::Off);
+        let h: usize = kani::any();
+        kani::assume(h >= 1 && h <= 3);
+        let d: usize = kani::any();
+        assert!(matches!(s.set_input_delay(h, d), Err(GgrsError::InvalidRequest { .. })));
+        assert!(s.outgoing_local_inputs.is_empty() && s.local_connect_status[0].last_frame == NULL_FRAME);
+        assert!(vu::sendq_len(s.player_reg.remotes.get(&9).unwrap()) == 0);
+        kani::cover!(h == 1, "remote handle");
+        kani::cover!(h == 3, "unknown handle");
+        core::mem::forget(s);
+    }
 
     /// Misuse calls return the documented error and leave the session unchanged: input for a
     /// remote/unknown handle, delay change or stats for the wrong player type.
@@ -351,7 +375,6 @@ pub(crate) mod verif_pc {
         kani::assume(h >= 1 && h <= 3);
         assert!(matches!(s.add_local_input(h, kani::any()), Err(GgrsError::InvalidRequest { .. })));
         assert!(s.pending_local_inputs.is_empty());
-        assert!(matches!(s.set_input_delay(h, 3), Err(GgrsError::InvalidRequest { .. })));
         assert!(matches!(s.network_stats(0), Err(GgrsError::InvalidRequest { .. })));
         assert!(matches!(s.network_stats(h + 1), Err(GgrsError::InvalidRequest { .. })));
         assert!(s.current_frame() == 0 && s.event_queue.is_empty() && s.outgoing_local_inputs.is_empty());
